@@ -128,7 +128,13 @@ func (th *Thread) advanceTimers(caller *frame, pos token.Pos, all bool) {
 			if !tm.active || (tm.period != nil && tm.fired >= 2) {
 				continue
 			}
-			if all || r.Choice(2) == 1 {
+			fireIt := all
+			if !all {
+				c := r.Choice(2)
+				r.choices = append(r.choices, c) // replayed natively by zzvtime's Advance hook
+				fireIt = c == 1
+			}
+			if fireIt {
 				th.fire(caller, pos, tm)
 				firedAny = true
 			}
